@@ -96,6 +96,94 @@ def lf2(F, R):
                   okdetail="iterator yields <= %s items, capacity %d" % (bound, cap))
 
 
+def window_store(p):
+    """The second accepted form of push's byte store: one whole character copied into the window just below `free`,
+        self.inner[self.free - L .. self.free].copy_from_slice(E.as_bytes());  self.free = self.free - L;
+    with E one encode_utf8 result and L = E.len().  Returns None when push has no such copy, otherwise a dict with the copy's
+    block, the problems found (empty = the idiom holds) and the writes of `free`.  What the idiom gives: the window has
+    exactly the length of the source (copy_from_slice cannot panic on the lengths), it starts at free - L (no underflow and
+    inside the storage under the space guard and free <= inner.len()), the bytes of one character stay together in forward
+    order directly below the previous character, and `free` moves down by exactly what was stored."""
+    copies = [(b, t) for b, t in p.calls() if (callee_of(t) or "").endswith("copy_from_slice")
+              and has_sub(p.term_of_operand(t["args"][0], b), lambda q: q[0] == "place" and q[2] and "inner" in [e for e in q[2] if isinstance(e, str)])]
+    if not copies:
+        return None
+    out = {"block": copies[0][0], "problems": [], "free_writes": []}
+    if len(copies) != 1:
+        out["problems"].append("%d copy_from_slice calls into the storage (one expected)" % len(copies))
+        return out
+    b, t = copies[0]
+    is_free = lambda q: q[0] == "place" and strip_refs(q[1])[:2] == ("arg", 1) and [e for e in q[2] if isinstance(e, str) and e != "*"] == ["free"]
+    is_enc = lambda q: q[0] == "call" and q[1] and q[1].endswith("encode_utf8")
+    dst = strip_refs(p.term_of_operand(t["args"][0], b))
+    src = strip_refs(p.term_of_operand(t["args"][1], b))
+    # destination: index_mut(self.inner, Range{free - L, free})
+    while dst[0] == "place" and all(e == "*" for e in dst[2]):
+        dst = strip_refs(dst[1])
+    rng = None
+    if dst[0] == "call" and dst[1] and dst[1].endswith("IndexMut::index_mut") and len(dst[2]) == 2:
+        r_ = strip_refs(dst[2][1])
+        if r_[0] == "agg" and r_[2] and r_[2].endswith("Range::Range") and len(r_[3]) == 2:
+            rng = (strip_refs(r_[3][0]), strip_refs(r_[3][1]))
+    if rng is None:
+        out["problems"].append("the destination is not inner[a..b]: %s" % tstr(dst)[:120])
+        return out
+    lo, hi = rng
+    enc_of = lambda q: [z for z in subterms(q) if is_enc(z)]
+    L = None
+    checked = None
+    if lo[0] == "bin" and lo[1] == "Sub" and is_free(strip_refs(lo[2])):
+        L = strip_refs(lo[3])
+    elif (lo[0] == "place" and tuple(lo[2])[:2] == ("as:Some", "0") and all(e == "*" for e in lo[2][2:]) and lo[1][0] == "call" and lo[1][1]
+          and lo[1][1].endswith("checked_sub") and len(lo[1][2]) == 2 and is_free(strip_refs(lo[1][2][0]))):
+        # `let Some(new_free) = self.free.checked_sub(L) else { overflow }`: the Some payload *is* free - L, and it exists
+        # only when L <= free
+        checked = lo[1]
+        L = strip_refs(lo[1][2][1])
+    if L is None or not is_free(hi):
+        out["problems"].append("the window must be inner[self.free - L .. self.free], got %s .. %s" % (tstr(lo)[:80], tstr(hi)[:40]))
+        return out
+    okL = L[0] == "call" and L[1] and L[1].split("::")[-1] == "len" and len(enc_of(L)) == 1
+    encs = enc_of(L)
+    srcs = enc_of(src)
+    if not okL or len(srcs) != 1 or srcs[0] != encs[0]:
+        out["problems"].append("the window length must be the length of the encode_utf8 result that is copied (window: %s, source: %s)" % (tstr(L)[:80], tstr(src)[:80]))
+        return out
+    # the source is the whole encoding: as_bytes / bytes view of E, nothing sliced off
+    s_ = src
+    for _k in range(6):
+        if s_[0] == "place" and all(e == "*" for e in s_[2]):
+            s_ = strip_refs(s_[1])
+        elif s_[0] == "call" and s_[1] and s_[1].split("::")[-1] in ("as_bytes", "as_ref", "deref", "borrow") and len(s_[2]) == 1:
+            s_ = strip_refs(s_[2][0])
+        else:
+            break
+    if not is_enc(s_):
+        out["problems"].append("the source must be the whole encode_utf8 result, got %s" % tstr(src)[:100])
+    # space guard on the same L
+    if checked is not None:
+        ok, _ = guarded(p, b, lambda g: g.kind == "variant" and g.variant == "Some" and strip_refs(g.term) == checked)
+    else:
+        ok, _ = guarded(p, b, g_cmp("Lt", False, lambda x: is_free(strip_refs(x)), lambda y: strip_refs(y) == L))
+    if not ok:
+        out["problems"].append("the copy is not behind the check `self.free < encoded.len()` on the same length")
+    # free: one write, = free - L, after the copy on every way on
+    fw = [(wb, wi, strip_refs(p.term_of_rvalue(s["rv"], wb))) for wb, wi, s in p.stmts() if s["k"] == "Assign" and s["p"]["proj"] and p.place_str(s["p"]) == "(*self).free"]
+    out["free_writes"] = fw
+    if len(fw) != 1 or fw[0][2] != lo:
+        out["problems"].append("`free` must be written once, with the start of the window (found %s)" % [tstr(x[2])[:60] for x in fw])
+    else:
+        wb = fw[0][0]
+        idx_b = dst[3] if isinstance(dst[3], int) else b
+        early = wb != b and (not p.dominates(b, wb))
+        onward = p.reach_after(b, cut_blocks=[wb]) if wb != b else set()
+        skipped = [x for x in onward if p.term(x)["k"] == "Return" or x == idx_b]
+        if early or skipped:
+            out["problems"].append("`free` must be moved down after the copy, on every way on from it")
+    return out
+
+
+
 @rule("LF3", ["C17"], floor=7,
       doc="UTF-8 view discipline of LfnBuffer: as_str() uses from_utf8_unchecked only when overflow is false; bytes are stored only in push, at inner[free] directly after free -= 1, inside a loop over the bytes of one whole encode_utf8 result taken back to front and guarded by the early return `free < encoded.len() => overflow = true`; new/clear set free = inner.len(), overflow = false, unpaired_surrogate = None")
 def lf3(F, R):
@@ -116,10 +204,24 @@ def lf3(F, R):
                 ps = f.place_str(s["p"])
                 if ps.startswith("(*(*self).inner)[") or ".inner)[" in ps:
                     R.require(f.npath == LFN + "::push", f, "inner-writer", "LfnBuffer storage written in %s" % f.npath, f.loc(b, i))
+        if f.npath.startswith(LFN + "::") and f.npath != LFN + "::push":
+            for b, t in f.calls():
+                if (callee_of(t) or "").endswith("IndexMut::index_mut") and has_sub(f.term_of_operand(t["args"][0], b), lambda q: q[0] == "place" and q[2] and "inner" in [e for e in q[2] if isinstance(e, str)]):
+                    R.bad(f, "inner-writer", "LfnBuffer storage handed out for writing in %s" % f.npath, f.loc(b))
     p = F.fn(LFN + "::push")
     stores = [(b, i, s) for b, i, s in p.stmts() if s["k"] == "Assign" and s["p"]["proj"] and ".inner)[" in p.place_str(s["p"])]
-    R.require(len(stores) == 1, p, "single-store", "push must store bytes at exactly one site", p.loc(0))
-    for b, i, s in stores:
+    win = window_store(p) if not stores else None
+    if win is not None:
+        # second accepted form: one copy of the whole character into the window below `free` (see window_store)
+        R.require(not win["problems"], p, "window-store", "bytes are copied into the storage, but not as inner[free - len .. free] <- one whole encoded character with free -= len afterwards: %s" % "; ".join(win["problems"]), p.loc(win["block"]))
+        others = [b for b, t in p.calls() if (callee_of(t) or "").endswith("IndexMut::index_mut") and b != win["block"]
+                  and has_sub(p.term_of_operand(t["args"][0], b), lambda q: q[0] == "place" and q[2] and "inner" in [e for e in q[2] if isinstance(e, str)])
+                  and not has_sub(p.term_of_operand(p.term(win["block"])["args"][0], win["block"]), lambda q: q[0] == "call" and q[1] and q[1].endswith("IndexMut::index_mut") and q[3] == b)]
+        R.require(not others, p, "single-store", "push must store bytes at exactly one site", p.loc(others[0]) if others else p.loc(0))
+        stores = [(win["block"], 0, None)]
+    else:
+        R.require(len(stores) == 1, p, "single-store", "push must store bytes at exactly one site", p.loc(0))
+    for b, i, s in ([] if win is not None else stores):
         # index is self.free, decremented in the same block chain just before
         idx = [e for e in s["p"]["proj"] if e[0] == "index"]
         it = p.term_of_operand({"k": "copy", "p": {"l": idx[0][1], "proj": []}}, b) if idx else None
@@ -135,8 +237,8 @@ def lf3(F, R):
     # free -= 1 exactly once per stored byte: in the innermost loop containing the store
     decs = [(b, i) for b, i, s in p.stmts() if s["k"] == "Assign" and s["p"]["proj"] and p.place_str(s["p"]) == "(*self).free" and tmatch(p.term_of_rvalue(s["rv"], b), ("bin", "Sub", "_", ("c", 1))) is not None]
     other_free = [(b, i) for b, i, s in p.stmts() if s["k"] == "Assign" and s["p"]["proj"] and p.place_str(s["p"]) == "(*self).free" and (b, i) not in decs]
-    R.require(len(decs) == 1 and not other_free, p, "free-dec", "push must change `free` only by one `free -= 1` per stored byte (found %d decrements, %d other writes)" % (len(decs), len(other_free)), p.loc(0))
-    if decs and stores:
+    R.require(win is not None or (len(decs) == 1 and not other_free), p, "free-dec", "push must change `free` only by one `free -= 1` per stored byte (found %d decrements, %d other writes)" % (len(decs), len(other_free)), p.loc(0))
+    if decs and stores and win is None:
         R.require(p.dominates(decs[0][0], stores[0][0]) or decs[0][0] == stores[0][0], p, "dec-before-store", "free must be decremented before the byte is stored", p.loc(decs[0][0]))
         # the byte loop iterates rev(bytes(encode_utf8(..)))
         inner = None
